@@ -42,7 +42,8 @@ def exe_for(rng, archs):
 def rand_confstr(rng):
     r = rng.random()
     if r < 0.88: return "S" + rng.choice(["glibc ", "glibc ", "glibc  ", "GNU\t", "x "]) + G.rand_glibc_string(rng) + rng.choice(["", "", " ", "\n"])
-    if r < 0.93: return "S" + rng.choice(["glibc", "glibc 2.17 extra", "", "  ", "2.17", "glibc 2.28", "glibc 2.30"])
+    if r < 0.91: return "S" + rng.choice(["glibc %s extra", "GNU C Library %s", "GNU libc %s", "glibc stable %s"]) % G.rand_glibc_string(rng)
+    if r < 0.95: return "S" + rng.choice(["glibc", "glibc 2.17 extra", "", "  ", "2.17", "glibc 2.28", "glibc 2.30"])
     return rng.choice(["N", "RO", "RV", "RA"])
 
 
